@@ -5,10 +5,10 @@ TB = ("Trusted: rustc/Kani MIR->GOTO translation, CBMC, CaDiCaL; the container m
 
 CLAIMS = {
     "C01": dict(
-        engine="K",
-        technique="bounded model checking (Kani/CBMC) of the real engine functions against a Redis reference model, symbolic arguments",
+        engine="K+M",
+        technique="bounded model checking (Kani/CBMC) of the real engine functions against a Redis reference model, symbolic arguments; MIR -> SMT overflow / reservation queries for SETRANGE and DECRBY boundary arithmetic",
         text="Solver-decided, bounded: for each encoded string/key-space engine operation, from a directly built pre-state (key absent / present string of fixed small length / present other type), for ALL argument values (full-width indices, offsets, increments; symbolic payload bytes) the reply and the post-state equal a short Redis reference model and refused commands leave the state unchanged; panics/overflow are obligations too. One step from an arbitrary state of the bounded shape covers histories of any length that stay inside the shape.",
-        note=TB + " Server-method handlers (argument parsing in network/server.rs) are outside Kani's reach and not part of this claim."),
+        note=TB + " Server-method handlers (argument parsing in network/server.rs) are outside Kani's reach and not part of this claim; APPEND is decided for a one-byte and for an empty value, SETRANGE only for its refusal of offsets beyond 512 MB (MIR queries of C06)."),
 }
 
 CLAIMS["C20"] = dict(
@@ -58,10 +58,10 @@ CLAIMS["C02"] = dict(
     note=TB + TM + "Outside: interleavings of the sweeper thread with the command thread (no concurrency in Kani), the ~30 engine operations that do not expire lazily beyond the six representative known findings, wall-clock vs monotonic clock, RDB-restored deadlines (C09).")
 
 CLAIMS["C03"] = dict(
-    engine="K",
-    technique="bounded model checking (Kani/CBMC) of the real engine list/set/hash operations against a Redis reference model, full-width symbolic indices",
-    text="Solver-decided, bounded: LINDEX/LSET/LRANGE/LTRIM with full-width symbolic indices on lists of 1-3 symbolic elements equal the Redis index normalisation model (incl. out-of-range and reversed ranges); LPUSH/RPUSH/LPOP/RPOP order, returned element and key removal when emptied; SADD/SISMEMBER/SCARD/SREM-last and HSET/HGET/HEXISTS/HLEN on symbolic members; list/set/hash commands against a string key are WRONGTYPE without effect; watchers are notified iff the value changed (C08).",
-    note=TB + " Outside (CBMC out of memory at 14 GB): LREM, SREM/HDEL on multi-member collections, LPUSH onto a non-empty list, SPOP/SRANDMEMBER (thread_rng), set algebra, HINCRBY (decimal codec on symbolic values), collections larger than 3, the text handlers in commands/{lists,sets,hashes}.rs.")
+    engine="K+M",
+    technique="bounded model checking (Kani/CBMC) of the real engine list/set/hash operations against a Redis reference model, full-width symbolic indices; MIR -> SMT overflow query for the count / increment arithmetic",
+    text="Solver-decided, bounded: LINDEX/LSET/LRANGE/LTRIM with full-width symbolic indices on lists of 1-3 symbolic elements equal the Redis index normalisation model (incl. out-of-range and reversed ranges); LPUSH/RPUSH/LPOP/RPOP order, returned element and key removal when emptied; SADD (on a 2-member set and on a missing key with a repeated member)/SISMEMBER/SCARD/SREM-last and HSET/HGET/HEXISTS/HLEN on symbolic members; list/set/hash commands against a string key are WRONGTYPE without effect; watchers are notified iff the value changed (C08); (M) the count / increment arithmetic of LREM, SRANDMEMBER, LTRIM, HINCRBY cannot overflow for any argument (query c06_engine_arith_overflow).",
+    note=TB + TM + " Outside (CBMC out of memory at 14 GB): LREM's element selection, SREM/HDEL on multi-member collections, LPUSH onto a non-empty list, SPOP/SRANDMEMBER (thread_rng), set algebra, HINCRBY (decimal codec on symbolic values), collections larger than 3, the text handlers in commands/{lists,sets,hashes}.rs.")
 
 CLAIMS["C04"] = dict(
     engine="K+M",
@@ -71,9 +71,9 @@ CLAIMS["C04"] = dict(
 
 CLAIMS["C06"] = dict(
     engine="K+M",
-    technique="panic/overflow/bounds obligations of every Kani harness of the other properties + dedicated full-width boundary harnesses + allocation obligations",
-    text="Solver-decided, bounded: every Kani harness registered for C01-C04, C09, C10, C15, C20 runs with Kani's default checks (panic, unwrap, index and slice bounds, arithmetic overflow; pointer checks where the code under test is unsafe), so 'the unit returns for every input inside the bound' is an obligation of each; dedicated harnesses cover GETRANGE/LINDEX/LSET/LRANGE/LTRIM/ZRANGE with full-width indices, EXPIRE/SET EX with any Duration, the frame parser per type byte over arbitrary bytes, aggregate headers and RDB strings never reserving more than the bytes received, stream-ID parsing over arbitrary (non-UTF-8) bytes.",
-    note=TB + " Reduced: no liveness (hang, deadlock, 'stops answering'), no process-level behaviour (poisoned locks), nothing behind the Server-method text handlers (BLPOP timeout inf/nan, DECRBY i64::MIN, SETRANGE huge offset, SRANDMEMBER huge negative count were seen by reading and are NOT decided), Lua, replication.")
+    technique="panic/overflow/bounds obligations of every Kani harness of the other properties + dedicated full-width boundary harnesses + allocation obligations; MIR -> SMT queries over rustc's own bounds / overflow asserts, reservation sizes and float-to-duration conversions of all command code",
+    text="Solver-decided, bounded: every Kani harness registered for C01-C04, C09, C10, C15, C20 runs with Kani's default checks (panic, unwrap, index and slice bounds, arithmetic overflow; pointer checks where the code under test is unsafe), so 'the unit returns for every input inside the bound' is an obligation of each; dedicated harnesses cover GETRANGE/LINDEX/LSET/LRANGE/LTRIM/ZRANGE with full-width indices, EXPIRE/SET EX with any Duration, the frame parser per type byte over arbitrary bytes, aggregate headers and RDB strings never reserving more than the bytes received, stream-ID parsing over arbitrary (non-UTF-8) bytes. (M) On the MIR of the current tree: all 290 slice-index bounds asserts of the command handlers (request slice non-empty, lengths arbitrary) cannot fail; the arithmetic-overflow asserts of the handlers, the storage engine and the unified executor whose operands are built from inputs (integer parameters, fields of by-value command parameters, str::parse results) plus lengths and constants cannot fail (DECRBY/LREM/SRANDMEMBER at iN::MIN, SETRANGE offset + len, HINCRBY, EVAL numkeys, LTRIM stop + 1 ...); no Vec/VecDeque/HashMap reservation (with_capacity, reserve, resize, vec![x; n]) is sized by an input beyond 2^40 when existing collections hold <= 2^32 elements; every Duration::from_secs_f64 argument (BLPOP/BRPOP timeout, an arbitrary IEEE-754 binary64 value) is finite and in [0, 1e11].",
+    note=TB + TM + " Reduced: no liveness (hang, deadlock, 'stops answering'), no process-level behaviour (poisoned locks); overflow asserts on loop-carried accumulators, on fields of existing state and behind operators the encoder does not model are undecided (about 130 sites, listed in the evidence); a parameter that every caller bounds is still arbitrary in the function-local MIR queries (a witness of that kind would need confirmation through the public API; none on this tree); loops that run `count` times are not bounded by the reservation query; Lua internals, replication.")
 
 CLAIMS["C08"] = dict(
     engine="K",
@@ -114,14 +114,14 @@ CLAIMS["C15"] = dict(
 CLAIMS["C16"] = dict(
     engine="K",
     technique="bounded model checking (Kani/CBMC) of PendingEntryList operations from a directly built consistent state, and of Stream::read_group's cursor",
-    text="Solver-decided, bounded: add / re-add of an already pending ID / remove (XACK core) / transfer (XCLAIM core) / delete-consumer on a pending list with 2 pending IDs and 2 consumers preserve: by-ID content and owners, sum of per-consumer list lengths = number of pending IDs, min/max bounds; XGROUP CREATE starts at the requested ID, duplicate CREATE refused, SETID, DESTROY; XREADGROUP > with NOACK advances the cursor exactly to the last delivered ID.",
+    text="Solver-decided, bounded: add / re-add of an already pending ID / remove (XACK core; also with a consumer's list in arrival order rather than ID order) / transfer (XCLAIM core) / delete-consumer on a pending list with 2 pending IDs and 2 consumers preserve: by-ID content and owners, sum of per-consumer list lengths = number of pending IDs, min/max bounds; XGROUP CREATE starts at the requested ID, duplicate CREATE refused, SETID, DESTROY; XREADGROUP > with NOACK advances the cursor exactly to the last delivered ID.",
     note=TB + " Inline container family (<= 4 entries). Outside: ConsumerGroup-level acknowledge/claim with idle time, membership of each ID in the right per-consumer list (complete comparison out of memory), add_pending's unconditional counter increments, XPENDING range with consumer filter, XAUTOCLAIM.")
 
 CLAIMS["C19"] = dict(
     engine="K",
-    technique="bounded model checking (Kani/CBMC) of complete SCAN iterations of the real engine with a modification between calls",
-    text="Solver-decided, bounded: a complete cursor iteration (COUNT 1 and 2) over three keys in two shards returns every key that existed throughout, nothing that never existed, and terminates within |S|+1 calls, also when another key is added after the first call; deleting an already-returned smaller key makes the index cursor skip a stable key (known finding).",
-    note=TB + " SHARDS_PER_DATABASE shrunk 16 -> 2 in the scratch copy. Outside: MATCH/TYPE filters and the engine's char-based glob, HSCAN/SSCAN/ZSCAN, COUNT > 2, more than one modification.")
+    technique="bounded model checking (Kani/CBMC) of complete SCAN iterations of the real engine with a modification between calls, and of the engine's glob matcher against the Redis stringmatchlen recurrence",
+    text="Solver-decided, bounded: a complete cursor iteration (COUNT 1 and 2) over three keys in two shards returns every key that existed throughout, nothing that never existed, and terminates within |S|+1 calls, also when another key is added after the first call; deleting an already-returned smaller key makes the index cursor skip a stable key (known finding); the engine's pattern_matches (MATCH, KEYS) equals the Redis glob reference for all ASCII patterns of 2 bytes (quick) and 3 bytes (thorough) without '[' and backslash against all 3-byte ASCII texts.",
+    note=TB + " SHARDS_PER_DATABASE shrunk 16 -> 2 in the scratch copy. For the glob harnesses the two `x.chars().collect()` lines of pattern_matches are replaced in the scratch copy by an ASCII-exact byte->char copy (non-ASCII input fails the harness). Outside: the TYPE filter, HSCAN/SSCAN/ZSCAN (a ZSCAN harness exists but does not finish in 40 min), character classes / escapes / non-ASCII in the engine matcher, COUNT > 2, more than one modification.")
 
 NOT_APPLICABLE = {
     "C12": "Script atomicity, KEYS/ARGV fidelity, pcall/call control flow, EVALSHA==EVAL and the sandbox live in or behind the Lua VM (C code through FFI; kani-compiler ICEs on mlua's catch_unwind trampolines and there is no Lua semantics for the solver). The only solver-decidable part - the database a redis.call / EVALSHA acts on - is decided under C18 (queries c18_db_arg_execute_*, c18_db_arg_evalsha). Equality of the 3600-line executor with the direct Server-method handlers needs both sides under Kani, which did not fit.",
